@@ -125,7 +125,13 @@ def enc(v):
         return "u:" + json.dumps(v, separators=(",", ":"), sort_keys=True)
     return "h:" + json.dumps(v)
 
+class CtorError(ValueError):
+    pass
+
 def _init(self, *a, **kw):
+    if kw.get("boom"):
+        # a constructor that rejects its arguments with a ValueError of its own, as the library's constructors do
+        raise CtorError("constructor of %s rejects its arguments" % type(self).__name__)
     self.args = a
     self.kw = kw
 
@@ -163,7 +169,13 @@ for fi, forest in enumerate(json.load(sys.stdin)):
         tree = dump(classes[forest["root"]])
         answers = []
         for q in phase["queries"]:
-            if q["q"] == "resolve":
+            if q["q"] == "resolve_boom":
+                try:
+                    r = classes[q["root"]].from_alias(q["alias"], boom=True)
+                    answers.append({"ok": keyof.get(id(type(r)), -1)})
+                except Exception as e:
+                    answers.append({"err": type(e).__name__})
+            elif q["q"] == "resolve":
                 try:
                     r = classes[q["root"]].from_alias(q["alias"])
                     answers.append({"ok": keyof.get(id(type(r)), -1), "kw": [[k, enc(v)] for k, v in r.kw.items()],
@@ -262,6 +274,9 @@ def gen_forest(r, big):
             qs.append(dict(q="resolve", root=root, alias=alias))
         for _ in range(r.randint(2, 5)):
             qs.append(dict(q="fromarg", fac=0 if r.random() < 0.5 else r.choice(created), arg=gen_arg(r, created)))
+        # one query per alias of the pool from the root, with arguments the resolved class's constructor rejects
+        for alias in POOL[: 2 + len(created) % 3]:
+            qs.append(dict(q="resolve_boom", root=0, alias=alias))
         phases.append(dict(create=nodes[lo:hi], queries=qs))
         lo = hi
     return dict(root=0, phases=phases)
@@ -391,6 +406,19 @@ def synthetic(ctx, driver):
                 ctx.count("phase_after_late_registration")
             for q, ans in zip(phase["queries"], pout["answers"]):
                 case = dict(kind="synthetic", forest=spec_upto, query=q)
+                if q["q"] == "resolve_boom":
+                    # the class that wins the alias rejects its arguments (a ValueError of its own): explicit construction
+                    # of that class raises exactly this, so must the alias route - never an instance of another carrier
+                    ctx.case(case, kind="resolve_ctor_raises")
+                    sub = find_node(tree, q["root"])
+                    want = expected_winner(sub, q["alias"])
+                    exp = "ValueError" if want is None else "CtorError"
+                    got = ("instance of class %s" % ans["ok"]) if "ok" in ans else ans.get("err")
+                    if got != exp:
+                        ctx.violation(case, exp, got, "from_alias propagates the exception of the resolved class's constructor "
+                                      "(the config route builds what explicit construction builds, or fails as it fails)",
+                                      tags=dict(clause="ctor_exception_propagates", where="synthetic"))
+                    continue
                 if q["q"] == "resolve":
                     ctx.case(case, kind="resolve")
                     sub = find_node(tree, q["root"])
@@ -840,6 +868,7 @@ def features(ctx):
     warnings.simplefilter("ignore")  # RuntimeWarnings of degenerate banks (same on both sides)
     r = ctx.rng
     n = ctx.scale(400, 12000)
+    features_live_threshold(ctx)
     for i in range(n):
         if ctx.out_of_time():
             ctx.note("features: stopped after %d cases (time)" % i)
@@ -855,6 +884,75 @@ def features(ctx):
         if mutated:
             ctx.violation(dict(case, config=cfg), "configuration unchanged", "modified", ORACLES["mapping_unmodified"],
                           tags=dict(clause="mapping_unmodified", where="nested_config"))
+
+
+LIVE_CONFIGS = [
+    {"name": "si", "bank": {"name": "gabor", "scaling_function": "mel", "num_filts": 5, "sampling_rate": 8000}, "frame_shift_ms": 5.0},
+    {"name": "stft", "bank": {"name": "gabor", "scaling_function": "bark", "num_filts": 4, "sampling_rate": 8000},
+     "frame_shift_ms": 5.0, "frame_style": "causal"},
+    {"name": "stft", "bank": {"name": "gammatone", "scaling_function": "mel", "num_filts": 4, "sampling_rate": 8000}, "frame_shift_ms": 10.0},
+    {"name": "si", "bank": {"name": "gammatone", "scaling_function": "bark", "num_filts": 3, "sampling_rate": 8000, "order": 2},
+     "frame_shift_ms": 2.0},
+]
+
+
+def explicit_from_config(cfg):
+    """the explicit twin of a LIVE_CONFIGS entry: every object constructed by calling its class"""
+    from pydrobert.speech import compute, filters
+
+    b = cfg["bank"]
+    b = dict(name=b) if isinstance(b, str) else dict(b)
+    cls = {"gabor": filters.GaborFilterBank, "gammatone": filters.ComplexGammatoneFilterBank}[b.pop("name")]
+    sf = b.pop("scaling_function", None)
+    bank = cls(sf, **b) if sf is not None else cls(**b)
+    kw = {k: v for k, v in cfg.items() if k not in ("name", "bank")}
+    return {"si": compute.SIFrameComputer, "stft": compute.STFTFrameComputer}[cfg["name"]](bank, **kw)
+
+
+def live_threshold_run(cfg, thresholds):
+    """build the SAME configuration once per threshold value, in this order, in this process; per value one line
+    'thr=..: same | diff (...)' comparing the config route with the explicit twin"""
+    from pydrobert.speech import compute, config
+    from pydrobert.speech.alias import alias_factory_subclass_from_arg
+
+    old = config.EFFECTIVE_SUPPORT_THRESHOLD
+    lines = []
+    x = np.random.RandomState(5).randn(1500)
+    try:
+        for thr in thresholds:
+            config.EFFECTIVE_SUPPORT_THRESHOLD = thr
+            try:
+                a = alias_factory_subclass_from_arg(compute.FrameComputer, json.loads(json.dumps(cfg)))
+                b = explicit_from_config(cfg)
+                ya, yb = a.compute_full(x.copy()), b.compute_full(x.copy())
+                same = (list(a.bank.supports) == list(b.bank.supports) and a.frame_length == b.frame_length
+                        and ya.shape == yb.shape and ya.tobytes() == yb.tobytes())
+                lines.append("thr=%g: %s" % (thr, "same" if same else "diff (config route: frame_length %d, %s frames; explicit: frame_length %d, %s frames)"
+                                                 % (a.frame_length, ya.shape[0], b.frame_length, yb.shape[0])))
+            except Exception as e:  # noqa
+                lines.append("thr=%g: diff (%s: %s)" % (thr, type(e).__name__, str(e)[:120]))
+    finally:
+        config.EFFECTIVE_SUPPORT_THRESHOLD = old
+    return lines
+
+
+def features_live_threshold(ctx):
+    """`EFFECTIVE_SUPPORT_THRESHOLD` is a documented configuration constant read when a bank is built: the same JSON
+    configuration built again after the constant was changed must again equal its explicit twin (a configuration is a
+    description of objects, not a handle to objects built earlier)"""
+    from pydrobert.speech import config
+
+    base = float(config.EFFECTIVE_SUPPORT_THRESHOLD)
+    thresholds = [base, 1e-2, 1e-5, base]
+    for cfg in LIVE_CONFIGS:
+        case = dict(kind="features_live_threshold", config=cfg, thresholds=thresholds)
+        ctx.case(case, kind="features_live_threshold")
+        lines = live_threshold_run(cfg, thresholds)
+        bad = [l for l in lines if not l.endswith(": same")]
+        if bad:
+            ctx.violation(case, ["thr=%g: same" % t for t in thresholds], lines, ORACLES["features_bit_identical"] +
+                          " - also when the configuration is built again after config.EFFECTIVE_SUPPORT_THRESHOLD changed",
+                          tags=dict(clause="features_bit_identical", where="live_threshold"))
 
 
 # =====================================================================================================
@@ -893,6 +991,11 @@ def replay(rp):
         tree, ans, q = out["tree"], out["answers"][0], c["query"]
         print("hierarchy (as introspected):", json.dumps(tree))
         print("impl:", json.dumps(ans))
+        if q["q"] == "resolve_boom":
+            print("oracle: class winning the alias:", expected_winner(find_node(tree, q["root"]), q["alias"]),
+                  "- its constructor raises CtorError (a ValueError) for these arguments; from_alias must let it through")
+            print("oracle:", rp.get("oracle"), "| expected", rp.get("expected"), "| got", rp.get("got"))
+            return 0
         if q["q"] == "resolve":
             print("oracle: expected winner", expected_winner(find_node(tree, q["root"]), q["alias"]))
             line = "resolve %s %d s:%s" % (tree_tokens(tree), q["root"], q["alias"])
@@ -928,6 +1031,9 @@ def replay(rp):
             except Exception as e:  # noqa
                 print("impl: %s: %s" % (type(e).__name__, e))
             print("mapping afterwards:", m)
+    elif kind == "features_live_threshold":
+        for line in live_threshold_run(c["config"], c["thresholds"]):
+            print("impl:", line)
     elif kind == "features":
         status, detail, cfg, mutated = run_feature_case(c["fc"])
         print("config:", json.dumps(cfg))
